@@ -81,7 +81,7 @@ func (n *AwaitExpressionNode) String() string {
 	var buff strings.Builder
 
 	if n.Sync {
-		buff.WriteString("await_sync")
+		buff.WriteString("await_sync ")
 	} else {
 		buff.WriteString("await ")
 	}
